@@ -29,8 +29,9 @@ ENTRIES = [
     B('dotdot-kept', "        elif part != '..':\n            new_parts.append(part)", "        elif part != '...':\n            new_parts.append(part)", 'C10-D5'),
     B('dot-kept', "if part == '.' or (flatten_slashes and not part):", "if flatten_slashes and not part:", 'C10-D5'),
     B('idna-after-check',
-      "            new_hostname = normalize_hostname(new_hostname)\n\n            if any(char in new_hostname for char in FORBIDDEN_HOSTNAME_CHARS):\n                raise ValueError('Invalid hostname: {}'\n                                 .format(ascii(hostname)))\n",
+      "            if any(char in new_hostname for char in FORBIDDEN_HOSTNAME_CHARS):\n                raise ValueError('Invalid hostname: {}'\n                                 .format(ascii(hostname)))\n",
       "            if any(char in new_hostname for char in FORBIDDEN_HOSTNAME_CHARS):\n                raise ValueError('Invalid hostname: {}'\n                                 .format(ascii(hostname)))\n\n            new_hostname = normalize_hostname(new_hostname)\n", 'C10-D1'),
+    B('regress-ipv4-after-mapping', "            # A name may only become a numeric address through the mapping\n            # and lower-casing above; it must not wait for a second\n            # normalization to be recognised as one.\n            try:\n                new_hostname = normalize_ipv4_address(new_hostname)\n            except ValueError:\n                pass\n", "", 'C10-D1'),
     B('host-not-lower', "hostname.encode('idna').decode('ascii').lower()", "hostname.encode('idna').decode('ascii')", 'C10-D1'),
     B('ipv6-raw', "hostname = ipaddress.IPv6Address(hostname[1:-1]).compressed", "ipaddress.IPv6Address(hostname[1:-1])\n        hostname = hostname[1:-1]", 'C10-D1'),
     B('query-no-upper', "    path = percent_encode_plus(text, encoding=encoding)\n    return uppercase_percent_encoding(path)", "    path = percent_encode_plus(text, encoding=encoding)\n    return path", 'C10-D1'),
